@@ -7,7 +7,7 @@
 #include <string.h>
 #include <stdio.h>
 
-typedef struct { char *desc, *text; int run, binary_only; char fbits[24], dbits[24], ldbits[24], ibits[24], api[16]; } rcase;
+typedef struct { char *desc, *text; int run, binary_only; char fbits[24], dbits[24], ldbits[24], ibits[24], api[16], alias[16], nonalias[16]; } rcase;
 static rcase *CS; static size_t n_cs; static int binary_mode;
 
 static void parse_kv (rcase *c, char *hdr) {
@@ -19,6 +19,8 @@ static void parse_kv (rcase *c, char *hdr) {
     if (!strncmp (kv, "run=", 4)) c->run = atoi (kv + 4);
     else if (!strncmp (kv, "binary_only=", 12)) c->binary_only = atoi (kv + 12);
     else if (!strncmp (kv, "api=", 4)) snprintf (c->api, sizeof c->api, "%s", kv + 4);
+    else if (!strncmp (kv, "alias=", 6)) snprintf (c->alias, sizeof c->alias, "%s", kv + 6);
+    else if (!strncmp (kv, "nonalias=", 9)) snprintf (c->nonalias, sizeof c->nonalias, "%s", kv + 9);
     else if (!strncmp (kv, "ibits=", 6)) snprintf (c->ibits, sizeof c->ibits, "%s", kv + 6);
     else if (!strncmp (kv, "fbits=", 6)) snprintf (c->fbits, sizeof c->fbits, "%s", kv + 6);
     else if (!strncmp (kv, "dbits=", 6)) snprintf (c->dbits, sizeof c->dbits, "%s", kv + 6);
@@ -234,6 +236,17 @@ void drv_case (uint64_t idx) {
   if (c->api[0]) { mh_cur = &a; mh_arm (1); if (setjmp (mh_err_jb) == 0) { build_api_case (&a, c); mh_arm (0); } else { mh_arm (0); vp_fail ("harness-invalid-case", "API construction failed: %s", a.errmsg); mh_close (&a); return; } }
   else if (mh_scan (&a, c->text) != 0) { vp_fail ("harness-invalid-case", "the case text is rejected by MIR_scan_string: %s", a.errmsg); mh_close (&a); return; }
   if (c->fbits[0] || c->ibits[0]) patch_specials (&a, c);
+  if (c->alias[0]) { /* the case states which alias / nonalias names its memory operands carry: the module read from the text must have exactly these */
+    const char *wa = strcmp (c->alias, "-") ? c->alias : "", *wn = strcmp (c->nonalias, "-") ? c->nonalias : ""; int seen = 0;
+    for (MIR_module_t m = DLIST_HEAD (MIR_module_t, *MIR_get_module_list (a.ctx)); m; m = DLIST_NEXT (MIR_module_t, m))
+      for (MIR_item_t it = DLIST_HEAD (MIR_item_t, m->items); it; it = DLIST_NEXT (MIR_item_t, it)) if (it->item_type == MIR_func_item)
+        for (MIR_insn_t in = DLIST_HEAD (MIR_insn_t, it->u.func->insns); in; in = DLIST_NEXT (MIR_insn_t, in))
+          for (unsigned k = 0; k < in->nops; k++) if (in->ops[k].mode == MIR_OP_MEM) {
+            const char *ga = in->ops[k].u.mem.alias ? MIR_alias_name (a.ctx, in->ops[k].u.mem.alias) : "", *gn = in->ops[k].u.mem.nonalias ? MIR_alias_name (a.ctx, in->ops[k].u.mem.nonalias) : ""; seen++;
+            if (strcmp (ga, wa) || strcmp (gn, wn)) { vp_fail ("scanned-names-differ-from-text", "memory operand read from the text has alias '%s' nonalias '%s', the text says '%s' and '%s'", ga, gn, wa, wn); mh_close (&a); return; }
+          }
+    if (!seen) { vp_fail ("harness-invalid-case", "no memory operand in an alias case"); mh_close (&a); return; }
+  }
   mh_open (&b);
   if (!binary_mode) {
     t1 = output_text (&a, &l1);
